@@ -26,6 +26,13 @@
 (*       ValidateBasic, BuildTx) over the same classes - diagnostic only,  *)
 (*       the statement does not say which transactions validate.           *)
 (*                                                                         *)
+(* This module is ONE transaction through ONE fresh builder: a pure input  *)
+(* space.  The same functions applied in SEQUENCES to SHARED objects (a    *)
+(* re-used TxBuilder, decoded Cosmos transactions with several Ethereum    *)
+(* messages, UnwrapEthereumMsg and the per-message getters in any order)   *)
+(* are the state machine of module EnvelopeOps, which extends this one and *)
+(* draws its transactions from the case product defined here.              *)
+(*                                                                         *)
 (* Numbers are decimal strings (module BigNum).  A case is a record of     *)
 (* class names                                                             *)
 (*   [type, nonce, gas, amount, price, rel, data, access, to, sig, chain,  *)
